@@ -155,7 +155,7 @@ func c08Judge(c *mon.Ctx, in *progInput) {
 	} else {
 		opts = append(opts, interpreter.WithScripts(lock, unlock))
 	}
-	opts = append(opts, interpreter.WithFlags(scriptflag.Flag(in.Flags)))
+	opts = append(opts, flagOptions(in.Flags, len(in.Unlock)+3*len(in.Lock)+int(in.Flags%7))...)
 	dbg := &frameDebugger{c: c, in: in}
 	opts = append(opts, interpreter.WithDebugger(dbg))
 	var libErr error
@@ -374,6 +374,84 @@ func init() {
 							}
 							judge(c, &in)
 							c.Count(fmt.Sprintf("matrix:%s:%s", provs[pi].name, xf[xi].name))
+						}
+					}
+				}
+			}
+		}
+		c.Phase("computed-origins") // an item that is the RESULT of an operation gets two holders; each holder is transformed in turn; both results stay on the stack for the lock-step comparison
+		{
+			pp := gen.Push
+			origins := []struct {
+				name string
+				f    func(x []byte) []byte
+			}{
+				{"CAT", func(x []byte) []byte {
+					if len(x) < 2 {
+						return append(append(pp(x), 0x00), 0x7e)
+					}
+					return append(append(pp(x[:1]), pp(x[1:])...), 0x7e)
+				}},
+				{"CAT-grown", func(x []byte) []byte { return append(append(append(pp(x), pp([]byte{0x01})...), 0x7e), append(pp([]byte{0x02, 0x03}), 0x7e)...) }},
+				{"ADD", func(x []byte) []byte { return append(append(pp(x), 0x52), 0x93) }},
+				{"NUM2BIN", func(x []byte) []byte { return append(append(pp(x), gen.PushNum(int64(len(x)+1))...), 0x80) }},
+				{"INVERT-INVERT", func(x []byte) []byte { return append(pp(x), 0x83, 0x83) }},
+				{"SHA256", func(x []byte) []byte { return append(pp(x), 0xa8) }},
+				{"AND-self", func(x []byte) []byte { return append(pp(x), 0x76, 0x84) }},
+				{"SPLIT-left-of-CAT", func(x []byte) []byte {
+					return append(append(append(append(pp(x), pp(x)...), 0x7e), gen.PushNum(int64(len(x)))...), 0x7f, 0x75)
+				}},
+				{"BIN2NUM", func(x []byte) []byte { return append(pp(x), 0x81) }},
+			}
+			type sharing struct {
+				name       string
+				dup, other []byte // make the second holder; bring the other holder to the top
+			}
+			sharings := []sharing{
+				{"DUP/SWAP", []byte{0x76}, []byte{0x7c}},
+				{"DUP-TOALT/FROMALT", []byte{0x76, 0x6b}, []byte{0x6c}},
+				{"filler-OVER/ROT", []byte{0x01, 0x07, 0x78}, []byte{0x7b}},
+				{"TUCK-of-filler/2-ROLL", []byte{0x76, 0x01, 0x07, 0x7c}, []byte{0x52, 0x7a}},
+			}
+			xfs := []struct {
+				name string
+				f    func(x []byte, k byte) []byte
+			}{
+				{"CAT", func(x []byte, k byte) []byte { return append(pp([]byte{0xa0 + k, 0xb0 + k}), 0x7e) }},
+				{"CAT1", func(x []byte, k byte) []byte { return append(pp([]byte{0xc0 + k}), 0x7e) }},
+				{"NUM2BIN", func(x []byte, k byte) []byte { return append(gen.PushNum(int64(40+k)), 0x80) }},
+				{"INVERT", func(x []byte, k byte) []byte { return []byte{0x83} }},
+				{"1ADD", func(x []byte, k byte) []byte { return []byte{0x8b} }},
+				{"NEGATE", func(x []byte, k byte) []byte { return []byte{0x8f} }},
+				{"LSHIFT", func(x []byte, k byte) []byte { return append(gen.PushNum(int64(1+k)), 0x98) }},
+				{"BIN2NUM", func(x []byte, k byte) []byte { return []byte{0x81} }},
+				{"SPLIT1", func(x []byte, k byte) []byte { return append(gen.PushNum(1), 0x7f, 0x75) }},
+				{"SIZE-ADD", func(x []byte, k byte) []byte { return []byte{0x82, 0x75, 0x8b} }},
+			}
+			n = 0
+			for _, og := range origins {
+				for _, sh := range sharings {
+					for t1, x1 := range xfs {
+						for t2, x2 := range xfs {
+							for oi, operand := range c08Operands {
+								n++
+								if !c.Case(n) {
+									continue
+								}
+								fl := []uint32{0, uint32(scriptflag.UTXOAfterGenesis)}[(oi+t1+t2)%2]
+								var prog []byte
+								prog = append(prog, og.f(operand)...)
+								prog = append(prog, sh.dup...)
+								prog = append(prog, x1.f(operand, 1)...)
+								prog = append(prog, sh.other...)
+								prog = append(prog, x2.f(operand, 2)...)
+								in := progInput{Flags: fl, Ctx: defaultCtx(), Src: "computed-origins", Lock: prog}
+								if n%3 == 0 {
+									in.Ctx.HasTx = false
+								}
+								judge(c, &in)
+								c.Count("computed-origins:" + og.name + ":" + sh.name)
+							}
 						}
 					}
 				}
